@@ -118,7 +118,8 @@ class Pipeline(object):
         self.src = Src(style)
         self.taps = {}
         self.caches = []
-        self.names = ["c1.pkl", os.path.join("sub", "c2.pkl")][:nc]
+        # a name with dots and a non-ASCII letter; a name in a directory that does not exist yet
+        self.names = [u"c1.v1.ü.pkl", os.path.join("sub", "c2.pkl")][:nc]
 
     def build(self, rc, protocol=2):
         import lena.flow
